@@ -255,6 +255,16 @@ func c06(r *sim.R) *sim.Violation {
 			got = append(got, row)
 		}
 		if d := dbcheck.DiffRows(want, got); d != "" {
+			// a narrower class first: nothing is missing, and every surplus row belongs to the
+			// victim interface and carries a time label that no block was ever written with -
+			// blocks of the damaged day whose timestamp in the damaged metadata now lies in another day
+			if metaDamaged && foreignStampsOnly(want, got, vIface, m) {
+				if v := r.Report(&sim.Violation{Clause: "rows-of-damaged-day-labelled-with-another-day", Signature: "block timestamp altered in damaged metadata",
+					Detail: fmt.Sprintf("%s\ndamage to %s/%d: %s\n%s", describe(q), vIface, vDay, strings.Join(what, "; "), d)}); v != nil {
+					return v
+				}
+				continue
+			}
 			csig := sig
 			if metaDamaged {
 				csig = "metadata of an inner day of the range damaged"
@@ -353,4 +363,41 @@ func canonOp(p string) string {
 		return p[:i]
 	}
 	return p
+}
+
+// foreignStampsOnly reports whether got = want plus rows of the interface iface whose time label
+// is not the timestamp of any block of the model.
+func foreignStampsOnly(want, got []string, iface string, m *model.Store) bool {
+	stamps := map[int64]bool{}
+	for _, i := range m.IfaceNames() {
+		for _, d := range m.Days(i) {
+			for _, b := range m.Ifaces[i][d].Blocks {
+				stamps[b.TS] = true
+			}
+		}
+	}
+	wm := map[string]int{}
+	for _, s := range want {
+		wm[s]++
+	}
+	surplus := 0
+	for _, s := range got {
+		if wm[s] > 0 {
+			wm[s]--
+			continue
+		}
+		parts := strings.SplitN(s, "|", 3)
+		var ts int64
+		fmt.Sscan(parts[0], &ts)
+		if len(parts) < 3 || parts[1] != iface || stamps[ts] {
+			return false
+		}
+		surplus++
+	}
+	for _, n := range wm {
+		if n > 0 {
+			return false
+		}
+	}
+	return surplus > 0
 }
